@@ -63,7 +63,7 @@ type Run struct {
 	FeedTo   int    `json:"feedTo"`  // the source has produced units [0, FeedTo) by the end of this run
 	LingerMs int    `json:"lingerMs"`
 	// ResyncTo > 0: the source answers this connection with a full resynchronisation under the same replication id: an (empty) snapshot
-	// taken after unit ResyncTo-1, which therefore counts as applied, then the stream from there
+	// taken behind everything it had produced before this connection (those units therefore count as applied), then the stream from there
 	ResyncTo int `json:"resyncTo,omitempty"`
 }
 
@@ -137,7 +137,7 @@ func genCase(t *rapid.T) Case {
 		}
 		r.LingerMs = rapid.SampledFrom([]int{0, 5, 30, 120, 230}).Draw(t, "linger")
 		if i > 0 && fed > 0 && rapid.IntRange(0, 5).Draw(t, "resync") == 0 {
-			r.ResyncTo = rapid.IntRange(1, fed).Draw(t, "resyncTo")
+			r.ResyncTo = rapid.IntRange(1, 2).Draw(t, "resyncTo")
 		}
 		c.Runs = append(c.Runs, r)
 	}
@@ -161,15 +161,42 @@ func genCase(t *rapid.T) Case {
 			}
 		}
 	}
+	if c.Nodes > 0 && rapid.IntRange(0, 2).Draw(t, "staleJournal") == 0 {
+		// two lanes of unequal speed, then - in the same process - a connection answered with a full resynchronisation a little ahead
+		// of the resume point, after which the fast lane again gets ahead of the slow one: journal records of the first numbering are
+		// still there when units of the second numbering are committed around a unit that is not
+		c.Nodes, c.Bounds = 2, []int{8192}
+		fast, slow := -1, -1
+		for a := range keyPool {
+			for b := range keyPool {
+				if slotOf(a) < 8192 && slotOf(b) >= 8192 && slotOf(a)%2 != slotOf(b)%2 {
+					fast, slow = a, b
+				}
+			}
+		}
+		if fast >= 0 {
+			c.Link.Mode, c.Link.Parallelism = "parallel", 2
+			c.DelayUs = []int{0, rapid.SampledFrom([]int{8000, 15000}).Draw(t, "sjSlow")}
+			c.Units = nil
+			for _, k := range []int{fast, slow, fast, fast, fast, fast, fast, fast, slow, fast, fast, slow} {
+				c.Units = append(c.Units, Unit{Keys: []int{k}})
+			}
+			c.Pauses = nil
+			nu = len(c.Units)
+			c.Runs = []Run{
+				{Restart: "process", Fault: "crash", At: rapid.IntRange(22, 34).Draw(t, "sjAt0"), FeedTo: 5},
+				{Restart: "input", Fault: rapid.SampledFrom([]string{"stop", "crash"}).Draw(t, "sjFault"), At: rapid.IntRange(5, 16).Draw(t, "sjAt1"), FeedTo: nu, ResyncTo: 1},
+			}
+		}
+	}
 	if c.Nodes > 0 && nu >= 5 && rapid.IntRange(0, 5).Draw(t, "quietResync") == 0 {
 		// a history with a full resynchronisation after which nothing new arrives before the next restart: the sequence numbering starts
 		// over while the recovery records of the earlier units (other slots, higher sequence numbers, lower offsets) are still there
 		c.Link.Mode = rapid.SampledFrom([]string{"sync", "sync", "pipeline"}).Draw(t, "qrMode")
 		m := rapid.IntRange(3, nu-2).Draw(t, "qrFirst")
-		// the snapshot is taken after one more unit which the link never replayed (the source moved on), and covers everything produced so far
 		c.Runs = []Run{
 			{Restart: "process", Fault: "none", FeedTo: m, LingerMs: 5},
-			{Restart: rapid.SampledFrom([]string{"process", "input"}).Draw(t, "qrR1"), Fault: "none", FeedTo: m + 1, ResyncTo: m + 1, LingerMs: 5},
+			{Restart: rapid.SampledFrom([]string{"process", "input"}).Draw(t, "qrR1"), Fault: "none", FeedTo: m + 1, ResyncTo: 2, LingerMs: 5},
 			{Restart: rapid.SampledFrom([]string{"process", "input"}).Draw(t, "qrR2"), Fault: rapid.SampledFrom([]string{"none", "stop", "crash"}).Draw(t, "qrF2"), At: rapid.IntRange(3, 14).Draw(t, "qrAt"), FeedTo: nu, LingerMs: 5},
 		}
 	}
@@ -200,6 +227,7 @@ type world struct {
 	byEnd      map[int64]int
 	valUnit    map[string]int
 	covered    map[int]bool // units whose effect a later snapshot contained
+	maybe      map[int]bool // ... of a snapshot whose replay was cut short (its checkpoint may not have been written)
 	cmu        sync.Mutex
 	sending    atomic.Bool   // a Send is in progress (as opposed to start-up / StartPoint)
 	coordSaves atomic.Int64  // frontier saves made while sending (by the coordinator)
@@ -213,7 +241,7 @@ func (wd *world) commitCount(end int64) int {
 }
 
 func build(c Case) *world {
-	wd := &world{c: c, byEnd: map[int64]int{}, valUnit: map[string]int{}, commits: map[int64]int{}, covered: map[int]bool{}}
+	wd := &world{c: c, byEnd: map[int64]int{}, valUnit: map[string]int{}, commits: map[int64]int{}, covered: map[int]bool{}, maybe: map[int]bool{}}
 	if c.Nodes == 0 {
 		wd.tgt = &bsync.Target{Std: fake.NewServer()}
 	} else {
@@ -329,7 +357,7 @@ func (wd *world) observe() (f facts, fs []failure) {
 						}
 					}
 					for u, e := range wd.unitEnd {
-						if e <= off && f.committed[u] == 0 && !wd.covered[u] {
+						if e <= off && f.committed[u] == 0 && !wd.covered[u] && !wd.maybe[u] {
 							fs = append(fs, failure{"frontier-passes-missing-unit", fmt.Sprintf("request %d stores the frontier (seq %d, offset %d) although unit %d (ends at %d) has not been committed at that moment", b.Seq, seq, off, u, e)})
 							break
 						}
@@ -453,6 +481,7 @@ func run(c Case) (fs []failure, inconc string, cls map[string]bool, hist any) {
 
 	prevResume := x0
 	covered := wd.covered // units whose effect a later snapshot contained
+	tentativeAt := int64(-1)
 	lastFed := 0
 	retries := 0
 	runs := append([]Run(nil), c.Runs...)
@@ -493,6 +522,15 @@ func run(c Case) (fs []failure, inconc string, cls map[string]bool, hist any) {
 			cancel()
 			rl.StartErr, rl.Dead = err.Error(), wd.w.Dead()
 			logs = append(logs, rl)
+			if !wd.w.Dead() && strings.Contains(err.Error(), "injected failure") {
+				// the target answered one of the start-up deletions with the injected error: the start fails and is repeated, as the tool does
+				cls["start-repeated-after-failed-deletion"] = true
+				if retries < 20 {
+					retries++
+					runs = append(runs[:ri+1], append([]Run{r}, runs[ri+1:]...)...)
+				}
+				continue
+			}
 			if !wd.w.Dead() {
 				return []failure{{"start-point-fails", fmt.Sprintf("run %d (%s restart, committed units %v): StartPoint fails on a healthy target: %v", ri, r.Restart, rl.Committed, err)}}, "", cls, nil
 			}
@@ -501,10 +539,10 @@ func run(c Case) (fs []failure, inconc string, cls map[string]bool, hist any) {
 		}
 		rl.Resume, rl.ResumeRun = sp.Offset, sp.RunId
 		// ---- the resume point
-		isDone := func(u int) bool { return before.committed[u] > 0 || covered[u] }
+		isDone := func(u int) bool { return before.committed[u] > 0 || covered[u] || wd.maybe[u] }
 		maxEnd := x0
 		for u := range wd.unitEnd {
-			if isDone(u) && wd.unitEnd[u] > maxEnd {
+			if (before.committed[u] > 0 || covered[u]) && wd.unitEnd[u] > maxEnd {
 				maxEnd = wd.unitEnd[u]
 			}
 		}
@@ -527,7 +565,7 @@ func run(c Case) (fs []failure, inconc string, cls map[string]bool, hist any) {
 					break
 				}
 			}
-			if c.Link.Mode == "sync" && sp.Offset != maxEnd {
+			if c.Link.Mode == "sync" && sp.Offset != maxEnd && !(sp.Offset == tentativeAt && sp.Offset > maxEnd) {
 				fail("sync-resume-not-last-committed", fmt.Sprintf("resume offset %d, the last committed unit ends at %d", sp.Offset, maxEnd))
 			}
 			if sp.Offset < prevResume {
@@ -539,7 +577,11 @@ func run(c Case) (fs []failure, inconc string, cls map[string]bool, hist any) {
 			logs = append(logs, rl)
 			break
 		}
-		prevResume = sp.Offset
+		if sp.Offset != tentativeAt {
+			// (a resume at the offset of a snapshot whose checkpoint write failed rests on the process' memory only: a later process
+			// restart legitimately falls back to what is stored, so it does not raise the bar)
+			prevResume = sp.Offset
+		}
 		if sp.Offset > x0 {
 			cls["resumed-mid-stream"] = true
 		}
@@ -549,16 +591,18 @@ func run(c Case) (fs []failure, inconc string, cls map[string]bool, hist any) {
 		if r.FeedTo == lastFed && ri > 0 {
 			cls["restart-without-new-traffic"] = true
 		}
+		producedBefore := lastFed
 		lastFed = r.FeedTo
 
 		// ---- a full resynchronisation decided by the source (same replication id): snapshot, then the stream from its offset
 		if r.ResyncTo > 0 {
-			k := r.ResyncTo
-			// the snapshot is ahead of what the link has replayed (the source moved on while its backlog was lost)
-			for k < len(wd.unitEnd) && wd.unitEnd[k-1] <= sp.Offset {
-				k++
+			// the snapshot is taken at the source's current offset, i.e. behind everything it had produced when this connection was made
+			// (what the previous runs were offered); it is therefore ahead of, or level with, everything the link ever committed
+			k := producedBefore
+			if r.ResyncTo >= 2 {
+				k = r.FeedTo // ... or including what it produced while the link was away: this connection then has nothing to stream
 			}
-			if wd.unitEnd[k-1] > sp.Offset && k <= r.FeedTo {
+			if k >= 1 && wd.unitEnd[k-1] > sp.Offset {
 				at := wd.unitEnd[k-1]
 				rctx, rcancel := context.WithTimeout(ctx, 20*time.Second)
 				err := ro.Send(rctx, &gen.Reader{R: bufio.NewReader(strings.NewReader(string(rdbBytes))), LeftV: at, RunID: ids[0], Aof: false, SizeV: int64(len(rdbBytes))})
@@ -567,9 +611,18 @@ func run(c Case) (fs []failure, inconc string, cls map[string]bool, hist any) {
 					cancel()
 					rl.SendErr, rl.Dead = "snapshot: "+err.Error(), wd.w.Dead()
 					logs = append(logs, rl)
-					if !wd.w.Dead() {
+					if !wd.w.Dead() && c.DelFail == 0 && c.DelFailMask == 0 {
 						return []failure{{"snapshot-replay-fails", fmt.Sprintf("run %d: replaying the snapshot of a full resynchronisation fails on a healthy target: %v", ri, err)}}, "", cls, nil
 					}
+					// (with injected deletion failures the clean-up that belongs to a completed full sync may fail, and the full sync with it)
+					// the target died somewhere inside the snapshot replay - possibly after every entry had been applied and only the
+					// checkpoint write failed, in which case the tool rightly remembers (in memory) that the snapshot is in: the units it
+					// contains may or may not count as applied from here on
+					for u := 0; u < k; u++ {
+						wd.maybe[u] = true
+					}
+					cls["resync-cut-short"] = true
+					tentativeAt = at
 					continue
 				}
 				for u := 0; u < k; u++ {
@@ -701,7 +754,7 @@ func run(c Case) (fs []failure, inconc string, cls map[string]bool, hist any) {
 	if len(fs) == 0 {
 		for u := range c.Units {
 			n := final.committed[u]
-			if n == 0 && covered[u] {
+			if n == 0 && (covered[u] || wd.maybe[u]) {
 				continue
 			}
 			if n == 0 {
